@@ -6,15 +6,15 @@
 (* arguments; every update covering the whole tile).  checks/c10.py generates    *)
 (* the same kind of module with its configuration families.                      *)
 EXTENDS TileLock
-MCCfgs == <<
-  [nupd |-> <<2, 2, 2>>, pos |-> <<<<1, 1>>, <<1, 1>>, <<1, 1>>>>,
+MCCfgs == {
+  [id |-> 1, nupd |-> <<2, 2, 2>>, pos |-> <<<<1, 1>>, <<1, 1>>, <<1, 1>>>>,
    reg |-> << << <<1>>, <<1, 4>> >>, << <<2>>, <<2, 4>> >>, << <<3>>, <<3, 4>> >> >>,
    init |-> << <<>>, <<>> >>, keymode |-> "pos", fmt |-> <<0, 0, 0>>],
-  [nupd |-> <<2, 2, 2>>, pos |-> <<<<1, 2>>, <<2, 1>>, <<1, 1>>>>,
+  [id |-> 2, nupd |-> <<2, 2, 2>>, pos |-> <<<<1, 2>>, <<2, 1>>, <<1, 1>>>>,
    reg |-> << << <<1, 2>>, <<1, 4>> >>, << <<2, 3>>, <<>> >>, << <<3>>, <<1, 2, 3, 4>> >> >>,
    init |-> << <<4>>, <<>> >>, keymode |-> "pos", fmt |-> <<0, 1, 0>>],
-  [nupd |-> <<2, 2, 2>>, pos |-> <<<<1, 1>>, <<1, 1>>, <<1, 1>>>>,
+  [id |-> 3, nupd |-> <<2, 2, 2>>, pos |-> <<<<1, 1>>, <<1, 1>>, <<1, 1>>>>,
    reg |-> << << <<1, 2, 3, 4>>, <<1, 2, 3, 4>> >>, << <<1, 2, 3, 4>>, <<1, 2, 3, 4>> >>, << <<1, 2, 3, 4>>, <<1, 2, 3, 4>> >> >>,
    init |-> << <<1, 2>>, <<>> >>, keymode |-> "pos", fmt |-> <<0, 0, 0>>]
->>
+}
 =============================================================================
